@@ -73,7 +73,7 @@ m={
  "version":1,
  "setup_cmd":"bin/setup",
  "hooks":{"guard":"verif","enable":"go build -tags verif -overlay /verif/.build/overlay.json ./cmd/verifcheck (bin/check regenerates the overlay from /repo's working tree on every run)",
-   "baseline_off_cmd":"cd /repo && GOFLAGS=-mod=mod go test -vet=off -count=1 -timeout 25m ./...",
+   "baseline_off_cmd":"cd /repo && GOFLAGS=-mod=mod GOPROXY=off go test -json -vet=off -count=1 -timeout 25m ./...",
    "source_commits":hook_commits,"add_only":True},
  "engines":[
   {"name":"E1 scheduler+DFS","path":"harness/shim/sched harness/shim/vsync harness/shim/vtime harness/engine/dfs","serves_properties":[k for k,v in checks.items() if "E1" in v["engine"]],"kind_free_text":"cooperative scheduler over hooked sync/time/net operations; stateless DFS over schedules and environment answers with preemption/fault bounds"},
